@@ -115,7 +115,8 @@ def run_one(case, ctx):
             # a directory with a file missing on both sides is legitimately withheld (and reported failed)
             excused = {doid for doid, kids in o.dir_children.items() if kids - src_has - set(o.dst_final)}
             excused |= o.corrupted if case["verify"] else set()  # rejected by verification on every attempt
-            bad = sorted({h.value for h in o.retry.failed} - excused)
+            # (a reference source still lists a file that is gone: its upload truthfully fails again)
+            bad = sorted({h.value for h in o.retry.failed} - excused - o.vanished)
             if bad:
                 viols.append(Viol("retry-failed", f"fault-free retry reported failures {bad}"))
             for oid in sorted(o.requested_expanded):
